@@ -116,7 +116,11 @@ func TestVFReplay(t *testing.T) {
 	copyFile(modfile, filepath.Join(opt.Repo, "go.mod"))
 	copyFile(filepath.Join(scratch, "go.sum"), filepath.Join(opt.Repo, "go.sum"))
 	args := []string{"test", "-tags", "verif", "-vet=off", "-count=1", "-overlay", ovPath, "-run", "^TestVFReplay$", "-v", "-timeout", fmt.Sprintf("%ds", int(timeout.Seconds())), "./" + pkgDir}
+	// allocation-size counterexamples are replayed under a 4 GB address-space limit
 	sh := "ulimit -v 12582912; exec go"
+	if timeout <= 20*time.Second {
+		sh = "go build std >/dev/null 2>&1; ulimit -v 4194304; exec go"
+	}
 	for _, a := range args {
 		sh += " '" + a + "'"
 	}
